@@ -197,6 +197,8 @@ class SerExecutor(Executor):
         """z3 term of sort PyV for an engine value, or None."""
         if isinstance(v, PV):
             return v.t
+        if isinstance(v, PTok) and v.what == "bin":      # a bytes object
+            return V.Bytes(v.a)
         if isinstance(v, VNoneT):
             return V.Non
         if isinstance(v, VBool):
